@@ -43,6 +43,11 @@ struct ElemW {
     friend bool operator!=(const ElemW& a, const ElemW& b) { return a.key != b.key; }
 };
 
+// write counters exist on ElemW only; ElemT16 (heap-owning, registered in the ledger) is there so that
+// every construction / assignment / destruction the merge performs on its temporaries is checked
+template <typename E> static auto nwrites_of(const E& e, int) -> decltype(e.nwrites()) { return e.nwrites(); }
+template <typename E> static unsigned nwrites_of(const E&, long) { return ~0u; }
+
 static const char* MWMA[4] = { "LOSER_TREE", "COMBINED", "SENTINEL", "BUBBLE" };
 static uint64_t g_merges = 0;
 
@@ -72,8 +77,8 @@ static void one(const Shape& sh, Cmp cmp, int algo, bool stable, bool sentinels,
     std::string why = check_result(sh, in, out, (size_t)(ret - out.data()), stable, detail);
     if (why.empty()) {
         for (size_t i = 0; i < out.size(); ++i) {
-            unsigned w = out[i].nwrites(), want = i < sh.length ? 1 : 0;
-            if (w != want) { why = "writes-per-position"; detail = "output[" + std::to_string(i) + "] was written " + std::to_string(w) + " time(s)"; break; }
+            unsigned w = nwrites_of(out[i], 0), want = i < sh.length ? 1 : 0;
+            if (w != ~0u && w != want) { why = "writes-per-position"; detail = "output[" + std::to_string(i) + "] was written " + std::to_string(w) + " time(s)"; break; }
         }
     }
     std::string cfg = std::string(split ? "SAMPLING" : "EXACT") + ":" + MWMA[algo] + ":" + E::name();
@@ -109,6 +114,13 @@ static void run_case(Rng& rng, uint64_t) {
         if (verif::want_sample(3)) verif::sample(sh.str());
         some<ElemW<0> >(rng, sh, 3);
         some<ElemW<6> >(rng, sh, 2);
+        {
+            uint64_t live0 = verif::Ledger::get().live_count();
+            some<ElemT16>(rng, sh, 2);
+            if (verif::Ledger::get().live_count() != live0)
+                verif::fail("C07:ledger:leaked-or-double-destroyed", "live ledger objects " + std::to_string(live0) + " before and " +
+                            std::to_string(verif::Ledger::get().live_count()) + " after parallel merges of ElemT16; " + sh.str());
+        }
         verif::count("shapes");
         if (sh.n_empty) verif::count("shapes_with_empty_sequences");
     }
